@@ -565,6 +565,11 @@ class CFG:
         for d in walk(n):
             if d["id"] in self.block_of:
                 return self.block_of[d["id"]]
+        # a node that a load-time normalisation put in place of a call / a use (dealias, inline_unnamed_helpers): it is evaluated where
+        # the node it replaced is — its closest ancestor that is an element of the graph
+        for a in self.fn.ancestors(n):
+            if a.get("id") in self.block_of:
+                return self.block_of[a["id"]]
         return None
 
     def branch_leaf(self, bid):
@@ -942,12 +947,114 @@ def effective_call(n):
     return n
 
 
+_VOCAB = None
+
+
+def rule_vocabulary():
+    """Every identifier the rule modules, the engine and the spec tables mention.  A function whose name is in it may be an anchor or a
+    role some rule binds by name; a function whose name is not cannot be."""
+    global _VOCAB
+    if _VOCAB is None:
+        import glob
+        import os
+        import re
+        here = os.path.dirname(os.path.dirname(os.path.dirname(os.path.abspath(__file__))))
+        import ast
+        toks = set()
+        for fpath in glob.glob(os.path.join(here, "spec/*.json")):
+            with open(fpath, encoding="utf-8", errors="replace") as fh:
+                toks.update(re.findall(r"[A-Za-z_][A-Za-z0-9_]*", fh.read()))
+        for pat in ("rules/*.py", "lib/cmpverif/*.py"):
+            for fpath in glob.glob(os.path.join(here, pat)):
+                with open(fpath, encoding="utf-8", errors="replace") as fh:
+                    src = fh.read()
+                try:
+                    tree = ast.parse(src)
+                except SyntaxError:
+                    toks.update(re.findall(r"[A-Za-z_][A-Za-z0-9_]*", src))
+                    continue
+                # string literals of the code (anchor names, callee names, keys) — not comments, not docstrings, not messages
+                doc = set()
+                for node in ast.walk(tree):
+                    if isinstance(node, (ast.Module, ast.FunctionDef, ast.ClassDef)) and node.body and isinstance(node.body[0], ast.Expr) and \
+                            isinstance(getattr(node.body[0], "value", None), ast.Constant) and isinstance(node.body[0].value.value, str):
+                        doc.add(id(node.body[0].value))
+                for node in ast.walk(tree):
+                    if isinstance(node, ast.Constant) and isinstance(node.value, str) and id(node) not in doc and len(node.value) < 120 and \
+                            node.value.count(" ") < 3:
+                        toks.update(re.findall(r"[A-Za-z_][A-Za-z0-9_]*", node.value))
+        _VOCAB = toks
+    return _VOCAB
+
+
+def inline_unnamed_helpers(fb, rounds=2):
+    """Normalisation applied when the fact base is loaded: a call of a one-line helper (`return <expr>;`, see inline_accessor) that is
+    private, protected or file-local and whose name no rule knows — an extracted `clonePayload(x)`, `headerBytesOf(p)`, `roomLeft()` — is
+    replaced, in place, by the expression it stands for, so that every rule sees the code as if the helper had not been extracted.
+    Helpers the rules do know by name (getHeader(), isSegmentedPacket(), ...) stay calls: the rules look through them where they need to."""
+    vocab = rule_vocabulary()
+
+    def candidate(g):
+        if g is None or g.body is None or not g.raw.get("inrepo"):
+            return False
+        short = g.name.split("::")[-1].split("<")[0]
+        if short in vocab or short.startswith("operator") or short.startswith("~"):
+            return False
+        local = "(anon-ns)" in g.name or g.raw.get("access") in ("private", "protected") or (not g.rec and g.raw.get("static"))
+        return bool(local)
+    n = 0
+    for _ in range(rounds):
+        changed = 0
+        for fn in list(fb.functions.values()):
+            if not fn.raw.get("inrepo") or not fn.body:
+                continue
+            for x in list(fn.nodes()):
+                if x.get("k") != "call" or x.get("inlined_from"):
+                    continue
+                g = fb.resolve_call(x)
+                if not candidate(g) or g.key == fn.key:
+                    continue
+                y = inline_accessor(fb, x)
+                if y is None:
+                    continue
+                cnt = [0]
+
+                def clone(z):
+                    if isinstance(z, list):
+                        return [clone(w) for w in z]
+                    if not isinstance(z, dict):
+                        return z
+                    out = {k2: (v2 if k2 in NONCHILD_KEYS else clone(v2)) for k2, v2 in z.items()}
+                    if "id" in out and "k" in out:
+                        cnt[0] += 1
+                        out["id"] = -(2 * 10 ** 7) - abs(x["id"]) * 256 - cnt[0]
+                    return out
+                new = clone(y)
+                keep_id, keep_loc, t = x.get("id"), x.get("loc"), x.get("t")
+                x.clear()
+                x.update({"k": "cast", "ck": "NoOp", "id": keep_id, "t": t or new.get("t"), "e": new, "inlined_from": g.name})
+                if keep_loc:
+                    x["loc"] = keep_loc
+                changed += 1
+            if changed:
+                fn._nodes = None
+                fn._parent = None
+                if hasattr(fn, "_local_defs_cache"):
+                    del fn._local_defs_cache
+        n += changed
+        if not changed:
+            break
+    fb.inlined_helpers = n
+    return n
+
+
 def load(root="/repo", config="default", extra_flags=()):
     from . import build
     d, meta = build.facts_dir(root, config, extra_flags)
     fb = FactBase(d, meta)
     if fb.odr_conflicts:
         raise Broken("declarations differ between units (ODR hazard): %r" % fb.odr_conflicts[:5])
+    inline_unnamed_helpers(fb)
     return fb
 
 
@@ -1667,6 +1774,11 @@ class MustFacts:
                     # earliest element of this subtree in the block
                     if first is None or self.cfg.pos_of[d["id"]] < self.cfg.pos_of[first]:
                         first = d["id"]
+        if first is None:
+            for a in self.cfg.fn.ancestors(n):
+                if a.get("id") in self.cfg.block_of and self.cfg.block_of[a["id"]] == bid:
+                    first = a["id"]  # (a normalised node: positioned at the element it stands in for)
+                    break
         # the earliest evaluated descendant
         if first is not None:
             sub = [d["id"] for d in walk(n) if d["id"] in self.cfg.block_of and self.cfg.block_of[d["id"]] == bid]
